@@ -511,6 +511,14 @@ def solvable_case(ctx, inst, ecfg, s0, origin):
         with warnings.catch_warnings():
             warnings.simplefilter('ignore')
             eng = cls(psi, M, opts)
+            # was the mixer still perturbing the state when the main loop ended?  (observed before the clean-up)
+            at_end = {}
+            orig_cleanup = eng.post_run_cleanup
+
+            def _cleanup():
+                at_end['mixer'] = eng.mixer is not None
+                return orig_cleanup()
+            eng.post_run_cleanup = _cleanup
             E, _ = eng.run()
     except core.MachineryError:
         raise
@@ -527,7 +535,7 @@ def solvable_case(ctx, inst, ecfg, s0, origin):
 
     # P1 normalised + canonical form
     nt = float(np.max(np.abs(psi.norm_test())))
-    mixer_at_end = eng.mixer is not None
+    mixer_at_end = bool(at_end.get('mixer', eng.mixer is not None))
     ctx.case(key + ('P1',), action='Solvable.P1')
     if not (nt < 1e-8 and abs(psi.norm - 1.) < 1e-10):
         sig0['mixer_active_at_end'] = mixer_at_end
@@ -550,14 +558,12 @@ def solvable_case(ctx, inst, ecfg, s0, origin):
         # exact: the last update reports the energy before its truncation and the change caused by it
         if not abs(EH - (float(np.real(E)) + float(E_tr))) <= tol:
             fail('P3-energy-vs-expectation', expectation=EH, E_trunc_last=float(E_tr))
-    else:
-        # mixer still perturbing: "up to the reported truncation" = within the largest reported E_trunc of the last sweep
-        if not abs(EH - float(np.real(E))) <= max(E_tr_sweep) + tol:
-            fail('P3-energy-vs-expectation-mixer', expectation=EH, max_E_trunc=max(E_tr_sweep))
+    # (a run that stops while a mixer is still enabled has built its last environments from perturbed, not yet
+    #  canonical tensors: its reported E / E_trunc are not expectation values, nothing is claimed about them)
     # P4 variational bound
     if diag != 'ED_all':
         ctx.case(key + ('P4',), action='Solvable.P4')
-        if not (float(np.real(E)) >= E0 - tol and EH >= E0 - tol):
+        if not ((mixer_at_end or float(np.real(E)) >= E0 - tol) and EH >= E0 - tol):
             fail('P4-below-ground-state', expectation=EH)
     # P5 exact ground state reached
     v0 = dict(zip(inst['basis'], inst['v'])).get(s0, 0)
